@@ -43,6 +43,7 @@ package dns
 //@ func NewName(labels [][]byte) (Name, error)
 //@   ensures @C15: result1 == nil ==> validName(result0) && len(result0) == len(labels)
 //@   ensures @C15: (exists i int :: 0 <= i && i < len(labels) && (len(labels[i]) == 0 || len(labels[i]) > 63)) ==> result1 != nil
+//@   assigns bufStr
 //@ loop 1:
 //@   invariant 0 <= iter && iter <= len(labels) && (forall j int :: 0 <= j && j < iter ==> 1 <= len(labels[j]) && len(labels[j]) <= 63)
 
@@ -84,3 +85,68 @@ package dns
 //@   assigns nothing
 //@ func (message *Message) Rcode() uint16
 //@   assigns nothing
+
+// ---------------- C11: the DNS wire-format parser (bytes straight from the network) ----------------
+// Every byte string a resolver or a client hands to the DNS registrar goes through MessageFromWireFormat. No message
+// makes the parser dereference nil, index out of range or allocate a buffer of negative size: label buffers are at
+// most 63 bytes, record data at most 65535 bytes, compression pointers are followed at most compressionPointerLimit
+// times. (Termination - every other step consumes input - is not a proof obligation of this engine.)
+//@ func io.ReadFull(r io.Reader, buf []byte) (n int, err error)
+//@   ensures 0 <= n && n <= len(buf) && (err == nil ==> n == len(buf))
+//@   assigns elems(buf), drawn(r)
+//@ func (r io.ReadSeeker) Seek(offset int64, whence int) (int64, error)
+//@   assigns drawn(r)
+//@ func (r io.ReadSeeker) Read(p []byte) (n int, err error)
+//@   ensures 0 <= n && n <= len(p)
+//@   assigns elems(p), drawn(r)
+
+//@ func readName(r io.ReadSeeker) (Name, error)
+//@   requires r != nil
+//@   ensures @C11: result1 == nil ==> validName(result0)
+//@   assigns drawn(r), bufStr
+//@   checks safety
+//@ loop 1:
+//@   invariant r != nil && 0 <= numPointers && numPointers <= compressionPointerLimit && (cap(labels) == 0 || fresh(labels))
+//@   invariant forall i int :: 0 <= i && i < len(labels) ==> 1 <= len(labels[i]) && len(labels[i]) <= 63
+
+//@ func readQuestion(r io.ReadSeeker) (Question, error)
+//@   requires r != nil
+//@   ensures @C11: result1 == nil ==> validName(result0.Name)
+//@   assigns drawn(r), bufStr
+//@   checks safety
+//@ loop 1:
+//@   invariant r != nil && 0 <= iter && iter <= 2
+//@   modifies under(&question.Type), under(&question.Class), drawn(r)
+
+//@ func readRR(r io.ReadSeeker) (RR, error)
+//@   requires r != nil
+//@   ensures @C11: result1 == nil ==> validName(result0.Name) && len(result0.Data) <= 65535
+//@   assigns drawn(r), bufStr
+//@   checks safety
+//@ loop 1:
+//@   invariant r != nil && 0 <= iter && iter <= 2
+//@   modifies under(&rr.Type), under(&rr.Class), drawn(r)
+
+//@ func readMessage(r io.ReadSeeker) (Message, error)
+//@   requires r != nil
+//@   ensures @C11: true
+//@   assigns drawn(r), bufStr
+//@   checks safety
+//@ loop 1:
+//@   invariant r != nil && 0 <= iter && iter <= 6
+//@   modifies under(&message.ID), under(&message.Flags), under(&qdCount), under(&anCount), under(&nsCount), under(&arCount), drawn(r)
+//@ loop 2:
+//@   invariant r != nil && 0 <= i && (cap(message.Question) == 0 || fresh(message.Question))
+//@   modifies message.Question, drawn(r), bufStr
+//@ loop 3:
+//@   invariant r != nil && 0 <= iter && iter <= 3
+//@   invariant (cap(message.Answer) == 0 || fresh(message.Answer)) && (cap(message.Authority) == 0 || fresh(message.Authority)) && (cap(message.Additional) == 0 || fresh(message.Additional))
+//@   modifies message.Answer, message.Authority, message.Additional, drawn(r), bufStr
+//@ loop 4:
+//@   invariant r != nil && 0 <= i
+//@   invariant (cap(message.Answer) == 0 || fresh(message.Answer)) && (cap(message.Authority) == 0 || fresh(message.Authority)) && (cap(message.Additional) == 0 || fresh(message.Additional))
+//@   modifies message.Answer, message.Authority, message.Additional, drawn(r), bufStr
+
+//@ func MessageFromWireFormat(buf []byte) (Message, error)
+//@   ensures @C11: true
+//@   checks safety
